@@ -20,7 +20,7 @@ from harness import c17_gen as G
 from harness import c17_oracle as O
 from harness.c17_impl import Impl
 
-KNOWN_IDS = ('C17-comment-index', 'C17-parse-dedup-case', 'C17-missing-handback', 'C17-bad-colour-function')
+KNOWN_IDS = ('C17-missing-handback',)
 
 
 class C17(Check):
@@ -80,10 +80,10 @@ class C17(Check):
         for _ in range(n):
             hist.append(G.random_history(rng))
         self.book(ctx, hist)
-        O.check_vocabulary(ctx, impl)
+        ctx.phase(O.check_vocabulary, ctx, impl)
         if os.environ.get('C17_DEV') != 'oracle-only':     # development switch: implementation-side oracle only
-            self.correspond(ctx, impl, hist)
-        O.run_oracle(ctx, impl, hist, rng)
+            ctx.phase(self.correspond, ctx, impl, hist)
+        ctx.phase(O.run_oracle, ctx, impl, hist, rng)
 
     def book(self, ctx, hist):
         for h in hist:
